@@ -98,6 +98,13 @@ def env_fault(rng, fam, params, kinds=None):
         env["linalg"] = {"fail_at": rng.randint(1, 6)}
     if "rng" in kinds and rng.random() < 0.5:
         env["rng"] = {"seed": _seed(rng)}
+    if rng.random() < 0.3:
+        # the ambient joblib configuration of the caller (parallel_config around the call):
+        # several workers, tasks reordered / batched / run on pickled copies like worker
+        # processes / executed twice. The selectors of the unchanged tree submit no tasks, so
+        # nothing may depend on it.
+        env["joblib"] = {"mode": rng.choice(["reorder", "batch", "isolate", "isolate", "twice"]), "seed": _seed(rng),
+                         "workers": rng.randint(2, 4), "reorder": rng.random() < 0.7, "batch": rng.randint(2, 4)}
     if "stderr" in kinds and params.get("progress_bar") and rng.random() < 0.6:
         env["stderr"] = {"mode": rng.choice(["eio", "closed", "epipe", "enospc", "none"]), "at": rng.randint(1, 4)}
         if rng.random() < 0.6:
@@ -123,7 +130,13 @@ def gen_read(rng, name, cls):
         meths.append(("transform", {}))
     meths.append(("score", {}))
     m, kw = rng.choice(meths)
-    return {"op": "READ", "obj": name, "method": m, "kwargs": kw}
+    r = {"op": "READ", "obj": name, "method": m, "kwargs": kw}
+    if m == "transform" and rng.random() < 0.5:
+        # the caller rescales the array transform() returned, in place - new data for the caller
+        # by scikit-learn's convention (the unchanged tree returns a fresh array); the selector's
+        # own stored columns must not follow
+        r["scribble"] = True
+    return r
 
 
 # ----------------------------------------------------------------------------- params
@@ -232,10 +245,15 @@ def gen_c01(rng, idx, tier, faults):
         if rng.random() < 0.3:
             # other data of the same shape, for cold refits of the same object
             xo = f"Z{o}"
-            heap[xo] = dict(gen_X(rng, D.KINDS, xs["shape"][0], xs["shape"][0], xs["shape"][1], xs["shape"][1]))
+            # same shape, or larger in both directions (every integer count valid for X stays
+            # valid; None and fractions resolve to OTHER counts, so nothing resolved during an
+            # earlier - possibly crashed - fit may survive into the next one)
+            grow = (rng.randint(1, 6), rng.randint(1, 6)) if rng.random() < 0.5 else (0, 0)
+            zn, zd = xs["shape"][0] + grow[0], xs["shape"][1] + grow[1]
+            heap[xo] = dict(gen_X(rng, D.KINDS, zn, zn, zd, zd))
             if yn:
                 yo = f"w{o}"
-                heap[yo] = gen_y(rng, xs["shape"][0])
+                heap[yo] = gen_y(rng, zn)
         seq = [{"op": "NEW", "obj": name, "cls": cls, "params": p}]
         mk_env = (lambda: env_fault(rng, fam, p)) if faults else (lambda: quiet_env(rng, fam))
         def crash_env():
@@ -326,6 +344,10 @@ def gen_c01(rng, idx, tier, faults):
 
 def _warm_forms(rng, ops):
     for o in ops:
+        if o["op"] == "FIT" and not o.get("warm") and not (o.get("env") or {}).get("interrupt") and rng.random() < 0.1:
+            o["via_fit_transform"] = True  # feature selectors only (executor)
+        if o["op"] == "SET" and "how" not in o and rng.random() < 0.5:
+            o["how"] = "set_params"  # BaseEstimator.set_params instead of attribute assignment
         if o["op"] == "FIT" and o.get("warm") and rng.random() < 0.1:
             o["warm_form"] = rng.choice(["np_bool", "int"])
 
@@ -415,6 +437,9 @@ def gen_c06(rng, idx, tier, faults):
     if not calibrated and len(sched) > 1 and rng.random() < (0.7 if long_run else 0.25):
         # the switching point is re-parameterised between two fits of the chain
         ff_set = (rng.randrange(1, len(sched)), rng.choice([1e-9, 0.05, 0.3, 0.6, 1.0]))
+    fork_at, fork_init = None, None
+    if len(sched) > 1 and rng.random() < 0.08:
+        fork_at, fork_init = rng.randrange(1, len(sched)), rng.randrange(n_from)
     reject_at, reject_with = None, None
     if len(sched) > 1 and rng.random() < 0.1:
         reject_at = rng.randrange(1, len(sched))
@@ -423,11 +448,15 @@ def gen_c06(rng, idx, tier, faults):
         else:
             reject_with = ("n_to_select", rng.choice([0, -3, 1.5, n_from + 7]), forms[reject_at])
     lane_rng = [_seed(rng) for _ in lanes]
+    lane_jb = [({"mode": rng.choice(["reorder", "batch", "isolate", "isolate", "twice"]), "seed": _seed(rng), "workers": rng.randint(2, 4),
+                 "reorder": True, "batch": 2} if (faults and rng.random() < 0.3) else None) for _ in lanes]
     for li, clk in enumerate(lanes):
         name = f"e{li}"
         if faults and not all128:
             clk = dict(clk)
             clk["_rng"] = lane_rng[li]
+            if lane_jb[li] is not None:
+                clk["_joblib"] = lane_jb[li]
         ops.append({"op": "NEW", "obj": name, "cls": "sample.VoronoiFPS", "params": dict(p), "lane": 0})
         if crash and crash["where"] == "start":
             # a fit that crashes at an arbitrary line; the history proper starts with a cold fit
@@ -445,6 +474,14 @@ def gen_c06(rng, idx, tier, faults):
                 rec["seed"] = _seed(rng)
                 ops.append({"op": "MUTATE", "h": "X0", "recipe": rec})
             xcur = "X0c" if (moved_at is not None and si >= moved_at) else "X0"
+            if si > 0 and fork_at == si:
+                # the caller takes a shallow copy of the fitted selector (copy.copy shares the
+                # fitted arrays), fits the COPY cold from another start on data of the same
+                # size, and then continues the original
+                fk = name + "k"
+                ops.append({"op": "FORK", "obj": fk, "from": name, "lane_of": name})
+                ops.append({"op": "SET", "obj": fk, "params": {"initialize": fork_init, "n_to_select": forms[0]}, "lane_of": name})
+                ops.append({"op": "FIT", "obj": fk, "X": xcur, "y": yn, "warm": False, "env": {"clock": clk}, "lane_of": name})
             if si > 0 and reject_at == si:
                 # a cold refit rejected for an invalid parameter value, parameter corrected,
                 # then the continuation (see gen_c08)
@@ -454,6 +491,8 @@ def gen_c06(rng, idx, tier, faults):
             ops.append({"op": "FIT", "obj": name, "X": xcur, "y": yn, "warm": si > 0, "env": {"clock": clk}})
             if read_after == si:
                 ops.append({"op": "READ", "obj": name, "method": read_m[0], "kwargs": read_m[1]})
+        if fork_at is not None and len(sched) > 1:
+            pass
         if shrink_to is not None:
             # a continuation that asks for fewer selections, then one that asks for more again
             xlast = "X0c" if moved_at is not None else "X0"
@@ -485,6 +524,8 @@ def gen_c06(rng, idx, tier, faults):
         if o["op"] == "FIT" and e and isinstance(e.get("clock"), dict) and "_rng" in e["clock"]:
             c = dict(e["clock"])
             e["rng"] = {"seed": c.pop("_rng")}  # another ambient RNG state per lane
+            if "_joblib" in c:
+                e["joblib"] = c.pop("_joblib")  # ... and another ambient joblib configuration
             e["clock"] = c
     wf = rng.choice(["np_bool", "int"]) if rng.random() < 0.1 else None
     for o in ops:
@@ -492,14 +533,14 @@ def gen_c06(rng, idx, tier, faults):
             o["warm_form"] = wf  # the same form in every lane
     names = []
     for o in ops:
-        if o.get("obj") and o["obj"] not in names:
-            names.append(o["obj"])
+        if o.get("obj") and (o.get("lane_of") or o["obj"]) not in names:
+            names.append(o.get("lane_of") or o["obj"])
     if 2 <= len(names) <= 4 and all(o.get("obj") for o in ops) and rng.random() < 0.4:
         # the objects of the lanes live in one process and are used alternately: the
         # operations of the lanes are interleaved (each lane keeps its own order), so state
         # shared between objects of the class - module-level pools, class attributes - is
         # overwritten by another object between two fits of a chain
-        queues = {n: [o for o in ops if o["obj"] == n] for n in names}
+        queues = {n: [o for o in ops if (o.get("lane_of") or o["obj"]) == n] for n in names}
         merged = []
         while any(queues.values()):
             n = rng.choice([k for k, q in queues.items() if q])
@@ -569,8 +610,27 @@ def gen_c08(rng, idx, tier, faults):
         return {"heap": heap, "ops": ops, "exhaustive_schedules": n}
     nobj = 1 if rng.random() < 0.65 else 2
     plans = []
+    shared = nobj == 2 and rng.random() < 0.3
     for o in range(nobj):
         cls, info, fam, xs, xn, yn, n_from, p, limit = _c08_object(rng, o, heap, faults)
+        if shared and o == 1:
+            # the second selector is of the same class and is fitted on the SAME array object
+            # as the first one, after the caller refilled that buffer with other values: state
+            # shared between objects and keyed by the identity of the array would be stale
+            heap.pop(xn, None)
+            heap.pop(yn, None) if yn else None
+            cls, info, fam, xs, xn, n_from, limit = first[0], first[1], first[2], first[3], first[4], first[5], first[6]
+            yn = first[7]
+            p = gen_params(rng, cls, xs["shape"], 1, "C08", faults)
+            p.pop("progress_bar", None)
+            if fam in ("cur", "pcovcur"):
+                p["recompute_every"] = rng.choice([0, 0, 1])
+            if isinstance(p.get("initialize"), list):
+                p["initialize"] = p["initialize"][:1]
+            elif isinstance(p.get("initialize"), dict) and "$ndarray" in p["initialize"]:
+                p["initialize"] = {"$ndarray": p["initialize"]["$ndarray"][:1]}
+        if o == 0:
+            first = (cls, info, fam, xs, xn, n_from, limit, yn)
         final = rng.randint(2, limit)
         sched = sorted(rng.sample(range(1, final), rng.randint(0, min(4, final - 1)))) + [final]
         name = f"e{o}"
@@ -590,6 +650,10 @@ def gen_c08(rng, idx, tier, faults):
             q["score_threshold"]["upto"] = sched[0]
             must_lower = True
         seq = [{"op": "NEW", "obj": name, "cls": cls, "params": q, "final": final, "X": xn, "y": yn}]
+        if shared and o == 1 and xs.get("storage", "C") not in ("readonly", "memmap"):
+            rec = {k: v for k, v in xs.items() if k != "storage"}
+            rec["seed"] = _seed(rng)
+            seq = [{"op": "MUTATE", "h": xn, "recipe": rec}] + seq
         mk_env = (lambda: env_fault(rng, fam, p, ["clock", "arpack", "rng"])) if faults else (lambda: quiet_env(rng, fam))
         moved = False
         for si, s in enumerate(sched):
@@ -699,7 +763,9 @@ def gen_c08(rng, idx, tier, faults):
         s = rng.choice([q for q in plans if q])
         ops.append(s.pop(0))
     _warm_forms(rng, ops)
-    return {"heap": heap, "ops": ops}
+    # the reference (twin) fits run in a forked child - leaving no trace in the process that
+    # hosts the history - whenever objects share a buffer, and in a fifth of the other runs
+    return {"heap": heap, "ops": ops, "fork_twins": bool(shared or rng.random() < 0.2)}
 
 
 # ----------------------------------------------------------------------------- reductions
